@@ -24,7 +24,9 @@ Fixpoint text_of_string (s : string) : text :=
   | String a r => N_of_ascii a :: text_of_string r
   end.
 
-Notation "'T' s" := (text_of_string s%string) (at level 0, s at level 0, only parsing).
+(** [T"abc"] is the literal list of code points (evaluated when the term is read) *)
+Notation "'T' s" := (ltac:(let v := eval vm_compute in (text_of_string s%string) in exact v))
+  (at level 0, s at level 0, only parsing).
 
 Fixpoint text_eqb (a b : text) : bool :=
   match a, b with
@@ -221,18 +223,27 @@ Definition prim_name (p : prim) : text :=
   | PIo => T"io" | PSelf => T"self" | PGlobal => T"global" | PNever => T"never"
   end.
 
-(** one character of [write_hover_escape_string] *)
-Definition esc_char (c : cp) : text :=
+(** one character of [write_hover_escape_string]; [nxt] is the character after it (the decimal escape
+    of ESC is padded to three digits when a digit follows) *)
+Definition esc_char (c : cp) (nxt : option cp) : text :=
   if c =? 92 then [92; 92]
   else if c =? 34 then [92; 34]
   else if c =? 10 then [92; 110]
   else if c =? 13 then [92; 114]
   else if c =? 9 then [92; 116]
-  else if c =? 27 then [92; 50; 55]
+  else if c =? 27 then
+    match nxt with
+    | Some d => if is_digit d then [92; 48; 50; 55] else [92; 50; 55]
+    | None => [92; 50; 55]
+    end
   else if is_control c then [92; 120; hex_digit_char (c / 16); hex_digit_char (c mod 16)]
   else [c].
 
-Definition escape (s : text) : text := flat_map esc_char s.
+Fixpoint escape (s : text) : text :=
+  match s with
+  | [] => []
+  | c :: r => esc_char c (hd_error r) ++ escape r
+  end.
 
 Definition quoted (s : text) : text := 34 :: escape s ++ [34].
 
@@ -271,12 +282,12 @@ Fixpoint dedup_text (seen : list text) (l : list text) : list text :=
   end.
 
 (** insertion sort of record fields by key ([sorted_by(|a, b| a.0.cmp(&b.0))], stable) *)
-Fixpoint insert_field (f : key * ty) (l : list (key * ty)) : list (key * ty) :=
+Fixpoint insert_field {A} (f : key * A) (l : list (key * A)) : list (key * A) :=
   match l with
   | [] => [f]
   | g :: r => if key_ltb (fst f) (fst g) then f :: l else g :: insert_field f r
   end.
-Definition sort_fields (l : list (key * ty)) : list (key * ty) := fold_right insert_field [] l.
+Definition sort_fields {A} (l : list (key * A)) : list (key * A) := fold_right insert_field [] l.
 
 Definition level_eqb (a b : level) : bool :=
   match a, b with
@@ -292,7 +303,7 @@ Definition render_key (k : key) : text :=
 
 (** [TypeHumanizer::write_type] with its depth guard; [lvl] is [self.level], [depth] is [self.depth] *)
 Fixpoint write_type (lvl : level) (depth : nat) (t : ty) {struct t} : text :=
-  if DEFAULT_MAX_DEPTH <=? depth then T"..." else
+  if (DEFAULT_MAX_DEPTH <=? depth)%nat then T"..." else
   let child := write_type (next_level lvl) (S depth) in
   match t with
   | TPrim p => prim_name p
@@ -306,13 +317,14 @@ Fixpoint write_type (lvl : level) (depth : nat) (t : ty) {struct t} : text :=
       (if array_base_needs_parens b then T"(" ++ inner ++ T")" else inner) ++ T"[]"
   | TTableGeneric ps =>                           (* write_table_generic_type *)
       if level_eqb lvl Minimal then T"table<...>" else
-      T"table<" ++ join T"," (map child (firstn (max_items lvl) ps))
-      ++ (if max_items lvl <? length ps then T", ..." else []) ++ T">"
+      T"table<" ++ join T"," (firstn (max_items lvl) (map child ps))
+      ++ (if (max_items lvl <? List.length ps)%nat then T", ..." else []) ++ T">"
   | TObject fs =>                                 (* write_object_type *)
       if level_eqb lvl Minimal then T"{...}" else
-      T"{ " ++ join T", " (map (fun f => render_key (fst f) ++ child (snd f))
-                              (firstn (max_items lvl) (sort_fields fs)))
-      ++ (if max_items lvl <? length fs then T", ..." else []) ++ T" }"
+      T"{ " ++ join T", " (map (fun f : key * text => render_key (fst f) ++ snd f)
+                              (firstn (max_items lvl)
+                                 (sort_fields (map (fun f : key * ty => (fst f, child (snd f))) fs))))
+      ++ (if (max_items lvl <? List.length fs)%nat then T", ..." else []) ++ T" }"
   | TFun ps =>                                    (* write_doc_function_type, AsyncState::None, return nil *)
       if level_eqb lvl Minimal then T"fun(...) -> ..." else
       T"fun(" ++ join T", " (map (fun p => fst p ++ match snd p with
@@ -323,16 +335,21 @@ Fixpoint write_type (lvl : level) (depth : nat) (t : ty) {struct t} : text :=
       let has_nil := existsb is_nil ms in
       let nn := filter (fun m => negb (is_nil m)) ms in
       let has_function := existsb is_function nn in
-      let keys := dedup_text [] (map child nn) in
-      let total := length keys in
+      let keys := dedup_text []
+                    ((fix go (l : list ty) : list text :=
+                        match l with
+                        | [] => []
+                        | m :: r => if is_nil m then go r else child m :: go r
+                        end) ms) in
+      let total := List.length keys in
       let num := max_union_items lvl in
-      let needs_parens := (1 <? total) || ((total =? 1) && has_function && has_nil) in
+      let needs_parens := (1 <? total)%nat || ((total =? 1)%nat && has_function && has_nil) in
       (if needs_parens then T"(" else [])
       ++ join T"|" (firstn num keys)
-      ++ (if num <? total then T"..." else [])
+      ++ (if (num <? total)%nat then T"..." else [])
       ++ (if needs_parens then T")" else [])
       ++ (if has_nil then T"?" else [])
-  end%nat.
+  end.
 
 (** [humanize_type(db, ty, RenderLevel::Documentation)] *)
 Definition render (t : ty) : text := write_type Documentation 0 t.
@@ -348,13 +365,15 @@ Inductive token : Set :=
 | TkString (raw : text)    (* the token text, delimiters included (the closing one may be missing) *)
 | TkColon | TkComma | TkLParen | TkRParen | TkLBracket | TkRBracket | TkLBrace | TkRBrace
 | TkLt | TkGt | TkOr | TkAnd | TkQuestion | TkPlus | TkMinus | TkEq | TkSemi
+| TkEof                    (* never produced by the lexer: what the parser sees at the end of the tokens *)
 | TkBarrier.               (* anything else: `.`, `...`, `--`, `#`, `@`, a back-quote, non-ASCII, ... — not modelled *)
 
 Inductive lstate : Set :=
 | LStart
 | LName (acc : text)            (* inside read_doc_name; [acc] reversed *)
 | LInt (acc : text)             (* inside the digit loop; reversed *)
-| LStr (q : cp) (acc : text).   (* inside a string literal opened by [q]; reversed, without the opening quote *)
+| LStr (q : cp) (acc : text)    (* inside a string literal opened by [q]; reversed, without the opening quote *)
+| LStrEsc (q : cp) (acc : text). (* the same, just after a backslash ([eat_doc_string_body]) *)
 
 (** what the lexer does with character [c] (next character [nxt]) in the start state:
     emitted tokens and the next state, or [None] = a construct outside the model *)
@@ -390,7 +409,10 @@ Definition step (st : lstate) (c : cp) (nxt : option cp) : list token * option l
   match st with
   | LStart => start_step c nxt
   | LStr q acc =>
-      if c =? q then ([TkString (q :: rev (c :: acc))], Some LStart) else ([], Some (LStr q (c :: acc)))
+      if c =? q then ([TkString (q :: rev (c :: acc))], Some LStart)
+      else if c =? 92 then ([], Some (LStrEsc q (c :: acc)))
+      else ([], Some (LStr q (c :: acc)))
+  | LStrEsc q acc => ([], Some (LStr q (c :: acc)))
   | LInt acc =>
       if is_digit c then ([], Some (LInt (c :: acc)))
       else let '(out, st') := start_step c nxt in (TkInt (rev acc) :: out, st')
@@ -412,7 +434,7 @@ Definition flush (st : lstate) : list token :=
   | LStart => []
   | LName acc => [TkName (rev acc)]
   | LInt acc => [TkInt (rev acc)]
-  | LStr q acc => [TkString (q :: rev acc)]
+  | LStr q acc | LStrEsc q acc => [TkString (q :: rev acc)]
   end.
 
 Fixpoint lex_go (st : lstate) (s : text) {struct s} : list token :=
@@ -481,6 +503,26 @@ Definition pres (A : Type) : Type := option (A * list token).
 
 Definition is_dname (d : dt) : bool := match d with DName _ => true | _ => false end.
 
+(** the current token ([TkEof] past the end) and the tokens after it *)
+Definition hd_tk (ts : list token) : token := match ts with t :: _ => t | [] => TkEof end.
+Definition tl_tk (ts : list token) : list token := match ts with _ :: r => r | [] => [] end.
+
+Definition is_eof (t : token) : bool := match t with TkEof => true | _ => false end.
+Definition is_barrier (t : token) : bool := match t with TkBarrier => true | _ => false end.
+Definition is_question (t : token) : bool := match t with TkQuestion => true | _ => false end.
+Definition is_comma (t : token) : bool := match t with TkComma => true | _ => false end.
+Definition is_colon (t : token) : bool := match t with TkColon => true | _ => false end.
+Definition is_lparen (t : token) : bool := match t with TkLParen => true | _ => false end.
+Definition is_rparen (t : token) : bool := match t with TkRParen => true | _ => false end.
+Definition is_lbracket (t : token) : bool := match t with TkLBracket => true | _ => false end.
+Definition is_rbracket (t : token) : bool := match t with TkRBracket => true | _ => false end.
+Definition is_rbrace (t : token) : bool := match t with TkRBrace => true | _ => false end.
+Definition is_lt (t : token) : bool := match t with TkLt => true | _ => false end.
+Definition is_gt (t : token) : bool := match t with TkGt => true | _ => false end.
+Definition is_plus_minus (t : token) : bool := match t with TkPlus | TkMinus => true | _ => false end.
+Definition is_kw_extends (t : token) : bool :=
+  match t with TkName s => match kw s with KwExtends => true | _ => false end | _ => false end.
+
 (** [is_mapped_type]: scan for `in` before the next bracket (the tokens after the `[`) *)
 Fixpoint mapped_scan (ts : list token) : option bool :=
   match ts with
@@ -504,58 +546,50 @@ Fixpoint parse_type (f : nat) (ts : list token) {struct f} : pres dt :=
 (** the [loop] of [parse_type]: postfix [?] ([extends] and [...] are outside the model) *)
 with type_loop (f : nat) (cm : dt) (ts : list token) {struct f} : pres dt :=
   match f with O => None | S f =>
-    match ts with
-    | TkBarrier :: _ => None
-    | TkQuestion :: r => type_loop f (DNullable cm) r
-    | TkName s :: _ => match kw s with KwExtends => None | _ => Some (cm, ts) end
-    | _ => Some (cm, ts)
-    end
+    let t := hd_tk ts in
+    if is_barrier t then None
+    else if is_question t then type_loop f (DNullable cm) (tl_tk ts)
+    else if is_kw_extends t then None
+    else Some (cm, ts)
   end
 with parse_sub_type (f : nat) (limit : nat) (ts : list token) {struct f} : pres dt :=
   match f with O => None | S f =>
-    match ts with
-    | [] => None
-    | TkBarrier :: _ => None
-    | t :: r =>
-        match to_type_unary_operator (opkind_of t) with
-        | UNone =>
-            match parse_simple_type f ts with
-            | Some (cm, ts1) => binary_loop f cm limit ts1
-            | None => None
-            end
-        | UNeg =>
-            match parse_sub_type f UNARY_TYPE_PRIORITY r with
-            | Some (d, ts1) => binary_loop f (DUnary UNeg d) limit ts1
-            | None => None
-            end
-        | UKeyof => None
-        end
-    end
+    let t := hd_tk ts in
+    if is_eof t || is_barrier t then None
+    else match to_type_unary_operator (opkind_of t) with
+         | UNone =>
+             match parse_simple_type f ts with
+             | Some (cm, ts1) => binary_loop f cm limit ts1
+             | None => None
+             end
+         | UNeg =>
+             match parse_sub_type f UNARY_TYPE_PRIORITY (tl_tk ts) with
+             | Some (d, ts1) => binary_loop f (DUnary UNeg d) limit ts1
+             | None => None
+             end
+         | UKeyof => None
+         end
   end
 (** [parse_binary_operator] *)
 with binary_loop (f : nat) (cm : dt) (limit : nat) (ts : list token) {struct f} : pres dt :=
   match f with O => None | S f =>
-    match ts with
-    | [] => Some (cm, ts)
-    | TkBarrier :: _ => None
-    | t :: r =>
-        let bop := to_parse_binary_operator (opkind_of t) in
-        match bop with
-        | BNone | BExtends => Some (cm, ts)
-        | BUnion =>
-            if (limit <? prio_left bop)%nat then
-              match r with
-              | TkQuestion :: r2 => binary_loop f (DBinary bop cm DLitQ) limit r2
-              | _ =>
-                  match parse_sub_type f (prio_right bop) r with
-                  | Some (d, r2) => binary_loop f (DBinary bop cm d) limit r2
-                  | None => None
-                  end
-              end
-            else Some (cm, ts)
-        | _ => if (limit <? prio_left bop)%nat then None else Some (cm, ts)
-        end
-    end
+    let t := hd_tk ts in
+    if is_barrier t then None
+    else
+      let bop := to_parse_binary_operator (opkind_of t) in
+      match bop with
+      | BNone | BExtends => Some (cm, ts)
+      | BUnion =>
+          if (limit <? prio_left bop)%nat then
+            let r := tl_tk ts in
+            if is_question (hd_tk r) then binary_loop f (DBinary bop cm DLitQ) limit (tl_tk r)
+            else match parse_sub_type f (prio_right bop) r with
+                 | Some (d, r2) => binary_loop f (DBinary bop cm d) limit r2
+                 | None => None
+                 end
+          else Some (cm, ts)
+      | _ => if (limit <? prio_left bop)%nat then None else Some (cm, ts)
+      end
   end
 (** [parse_simple_type] = [parse_primary_type] then [parse_suffixed_type] *)
 with parse_simple_type (f : nat) (ts : list token) {struct f} : pres dt :=
@@ -567,16 +601,17 @@ with parse_simple_type (f : nat) (ts : list token) {struct f} : pres dt :=
   end
 with parse_primary_type (f : nat) (ts : list token) {struct f} : pres dt :=
   match f with O => None | S f =>
-    match ts with
-    | TkLBrace :: r => parse_object f r
-    | TkLParen :: r =>                                                   (* parse_paren_type *)
+    let r := tl_tk ts in
+    match hd_tk ts with
+    | TkLBrace => parse_object f r
+    | TkLParen =>                                                        (* parse_paren_type *)
         match parse_type f r with
-        | Some (cm, TkRParen :: r2) => Some (cm, r2)
-        | _ => None
+        | Some (cm, r2) => if is_rparen (hd_tk r2) then Some (cm, tl_tk r2) else None
+        | None => None
         end
-    | TkString raw :: r => Some (DLitStr raw, r)                         (* parse_literal_type *)
-    | TkInt ds :: r => Some (DLitInt ds, r)
-    | TkName s :: r =>
+    | TkString raw => Some (DLitStr raw, r)                              (* parse_literal_type *)
+    | TkInt ds => Some (DLitInt ds, r)
+    | TkName s =>
         match kw s with
         | KwTrue => Some (DLitBool true, r)
         | KwFalse => Some (DLitBool false, r)
@@ -592,86 +627,76 @@ with parse_primary_type (f : nat) (ts : list token) {struct f} : pres dt :=
 (** [parse_suffixed_type]; [oa] = [only_continue_array] *)
 with suffix_loop (f : nat) (cm : dt) (oa : bool) (ts : list token) {struct f} : pres dt :=
   match f with O => None | S f =>
-    match ts with
-    | TkBarrier :: _ => None
-    | TkLBracket :: r =>
-        match r with
-        | TkRBracket :: r2 => suffix_loop f (DArray cm) true r2
-        | _ => None                                                      (* index access / error *)
-        end
-    | TkLt :: r =>
-        if oa then Some (cm, ts)
-        else match cm with
-             | DName n =>
-                 match parse_type_list f r with
-                 | Some (args, TkGt :: r2) => suffix_loop f (DGeneric n args) oa r2
-                 | _ => None
-                 end
-             | _ => Some (cm, ts)
-             end
-    | _ => Some (cm, ts)
-    end
+    let t := hd_tk ts in
+    if is_barrier t then None
+    else if is_lbracket t then
+      (if is_rbracket (hd_tk (tl_tk ts)) then suffix_loop f (DArray cm) true (tl_tk (tl_tk ts))
+       else None)                                                        (* index access / error *)
+    else if is_lt t then
+      (if oa then Some (cm, ts)
+       else match cm with
+            | DName n =>
+                match parse_type_list f (tl_tk ts) with
+                | Some (args, r2) =>
+                    if is_gt (hd_tk r2) then suffix_loop f (DGeneric n args) oa (tl_tk r2) else None
+                | None => None
+                end
+            | _ => Some (cm, ts)
+            end)
+    else Some (cm, ts)
   end
 (** [parse_type_list] *)
 with parse_type_list (f : nat) (ts : list token) {struct f} : pres (list dt) :=
   match f with O => None | S f =>
     match parse_type f ts with
-    | Some (d, TkComma :: r) =>
-        match parse_type_list f r with
-        | Some (ds, r2) => Some (d :: ds, r2)
-        | None => None
-        end
-    | Some (d, r) => Some ([d], r)
+    | Some (d, r) =>
+        if is_comma (hd_tk r) then
+          match parse_type_list f (tl_tk r) with
+          | Some (ds, r2) => Some (d :: ds, r2)
+          | None => None
+          end
+        else Some ([d], r)
     | None => None
     end
   end
 (** [parse_fun_type] after the [fun] keyword (generic lists and return types are outside the model) *)
 with parse_fun (f : nat) (ts : list token) {struct f} : pres dt :=
   match f with O => None | S f =>
-    match ts with
-    | TkLParen :: TkRParen :: r =>
-        match r with
-        | TkColon :: _ | TkBarrier :: _ => None
-        | _ => Some (DFun [], r)
-        end
-    | TkLParen :: r =>
-        match parse_params f r with
-        | Some (ps, TkRParen :: r2) =>
-            match r2 with
-            | TkColon :: _ | TkBarrier :: _ => None
-            | _ => Some (DFun ps, r2)
-            end
-        | _ => None
-        end
-    | _ => None
-    end
+    let finish (d : dt) (r : list token) : pres dt :=
+      if is_colon (hd_tk r) || is_barrier (hd_tk r) then None else Some (d, r) in
+    if is_lparen (hd_tk ts) then
+      let r := tl_tk ts in
+      if is_rparen (hd_tk r) then finish (DFun []) (tl_tk r)
+      else match parse_params f r with
+           | Some (ps, r2) => if is_rparen (hd_tk r2) then finish (DFun ps) (tl_tk r2) else None
+           | None => None
+           end
+    else None
   end
 (** [parse_typed_param] separated by commas *)
 with parse_params (f : nat) (ts : list token) {struct f} : pres (list (text * bool * option dt)) :=
   match f with O => None | S f =>
-    match ts with
-    | TkName n :: r =>
+    match hd_tk ts with
+    | TkName n =>
         if is_plain_name n then
-          let '(q, r1) := match r with TkQuestion :: r' => (true, r') | _ => (false, r) end in
+          let r := tl_tk ts in
+          let q := is_question (hd_tk r) in
+          let r1 := if q then tl_tk r else r in
           let cont (p : text * bool * option dt) (r2 : list token) :=
-            match r2 with
-            | TkBarrier :: _ => None
-            | TkComma :: r3 =>
-                match parse_params f r3 with
-                | Some (ps, r4) => Some (p :: ps, r4)
-                | None => None
-                end
-            | _ => Some ([p], r2)
-            end in
-          match r1 with
-          | TkBarrier :: _ => None
-          | TkColon :: r2 =>
-              match parse_type f r2 with
-              | Some (d, r3) => cont (n, q, Some d) r3
+            if is_barrier (hd_tk r2) then None
+            else if is_comma (hd_tk r2) then
+              match parse_params f (tl_tk r2) with
+              | Some (ps, r4) => Some (p :: ps, r4)
               | None => None
               end
-          | _ => cont (n, q, None) r1
-          end
+            else Some ([p], r2) in
+          if is_barrier (hd_tk r1) then None
+          else if is_colon (hd_tk r1) then
+            match parse_type f (tl_tk r1) with
+            | Some (d, r3) => cont (n, q, Some d) r3
+            | None => None
+            end
+          else cont (n, q, None) r1
         else None
     | _ => None
     end
@@ -679,26 +704,19 @@ with parse_params (f : nat) (ts : list token) {struct f} : pres (list (text * bo
 (** [parse_object_or_mapped_type] after the [{]; the first token is lexed in the Mapped state *)
 with parse_object (f : nat) (ts : list token) {struct f} : pres dt :=
   match f with O => None | S f =>
-    match ts with
-    | TkRBrace :: r => Some (DObject [], r)
-    | TkBarrier :: _ | TkPlus :: _ | TkMinus :: _ => None
-    | TkName s :: _ =>
-        if text_eqb s T"readonly" then None
-        else match parse_fields f true ts with
-             | Some (fs, TkRBrace :: r2) => Some (DObject fs, r2)
-             | _ => None
-             end
-    | TkLBracket :: r =>
-        match mapped_scan r with
-        | Some false =>
-            match parse_fields f true ts with
-            | Some (fs, TkRBrace :: r2) => Some (DObject fs, r2)
-            | _ => None
-            end
-        | _ => None
-        end
-    | _ => None
-    end
+    let t := hd_tk ts in
+    let fields :=
+      match parse_fields f true ts with
+      | Some (fs, r2) => if is_rbrace (hd_tk r2) then Some (DObject fs, tl_tk r2) else None
+      | None => None
+      end in
+    if is_rbrace t then Some (DObject [], tl_tk ts)
+    else if is_barrier t || is_plus_minus t then None
+    else match t with
+         | TkName s => if text_eqb s T"readonly" then None else fields
+         | TkLBracket => match mapped_scan (tl_tk ts) with Some false => fields | _ => None end
+         | _ => None
+         end
   end
 (** [parse_typed_field] separated by commas (a trailing comma is accepted); [first] = the key token
     was lexed in the Mapped state, where keywords other than [readonly] are plain names *)
@@ -706,33 +724,30 @@ with parse_fields (f : nat) (first : bool) (ts : list token) {struct f}
   : pres (list ((text + dt) * bool * option dt)) :=
   match f with O => None | S f =>
     let after_key (k : text + dt) (r : list token) :=
-      let '(q, r1) := match r with TkQuestion :: r' => (true, r') | _ => (false, r) end in
+      let q := is_question (hd_tk r) in
+      let r1 := if q then tl_tk r else r in
       let cont (fld : (text + dt) * bool * option dt) (r2 : list token) :=
-        match r2 with
-        | TkBarrier :: _ => None
-        | TkComma :: TkRBrace :: r3 => Some ([fld], TkRBrace :: r3)
-        | TkComma :: r3 =>
-            match parse_fields f false r3 with
-            | Some (fs, r4) => Some (fld :: fs, r4)
-            | None => None
-            end
-        | _ => Some ([fld], r2)
-        end in
-      match r1 with
-      | TkBarrier :: _ => None
-      | TkColon :: r2 =>
-          match parse_type f r2 with
-          | Some (d, r3) => cont (k, q, Some d) r3
-          | None => None
-          end
-      | _ => cont (k, q, None) r1
-      end in
-    match ts with
-    | TkName n :: r => if first || is_plain_name n then after_key (inl n) r else None
-    | TkLBracket :: r =>
-        match parse_type f r with
-        | Some (d, TkRBracket :: r2) => after_key (inr d) r2
-        | _ => None
+        if is_barrier (hd_tk r2) then None
+        else if is_comma (hd_tk r2) then
+          (if is_rbrace (hd_tk (tl_tk r2)) then Some ([fld], tl_tk r2)
+           else match parse_fields f false (tl_tk r2) with
+                | Some (fs, r4) => Some (fld :: fs, r4)
+                | None => None
+                end)
+        else Some ([fld], r2) in
+      if is_barrier (hd_tk r1) then None
+      else if is_colon (hd_tk r1) then
+        match parse_type f (tl_tk r1) with
+        | Some (d, r3) => cont (k, q, Some d) r3
+        | None => None
+        end
+      else cont (k, q, None) r1 in
+    match hd_tk ts with
+    | TkName n => if first || is_plain_name n then after_key (inl n) (tl_tk ts) else None
+    | TkLBracket =>
+        match parse_type f (tl_tk ts) with
+        | Some (d, r2) => if is_rbracket (hd_tk r2) then after_key (inr d) (tl_tk r2) else None
+        | None => None
         end
     | _ => None
     end
@@ -798,7 +813,7 @@ Definition string_value (raw : text) : option text :=
   match raw with
   | [] | [_] => Some []                                  (* text.len() < 2 *)
   | d :: body =>
-      match unescape (S (length body)) d body [] with
+      match unescape (S (List.length body)) d body [] with
       | SOk v => Some v
       | SErr => Some []
       | SUnmodelled => None
@@ -1055,7 +1070,7 @@ Fixpoint infer (e : env) (top : bool) (d : dt) {struct d} : option ty :=
 
 (** the type of [---@type <s>]; fuel proportional to the number of tokens always suffices for what
     the parser accepts *)
-Definition parse_fuel (ts : list token) : nat := (4 * length ts + 8)%nat.
+Definition parse_fuel (ts : list token) : nat := (16 * List.length ts + 16)%nat.
 
 Definition parse_tree (s : text) : option dt :=
   let ts := lex s in
